@@ -130,8 +130,10 @@ type Exec struct {
 	// identifiers of loop contracts that were renamed in the code, recovered by aligning a contract loop's header with the
 	// header of the loop it was bound to by position (for _, e := range v  ~  for _, element := range elementIds)
 	loopRename    map[string]string
-	guessLoop     ast.Node        // loop whose invariants are being translated: a renamed accumulator is looked for among the locals it assigns
-	loopAlias     map[string]Term // a local of the contract that named the ranged-over collection, now written in place
+	loopExprAlias map[string]Term   // text of the expression a contract loop ranged over (v.body) -> the collection the code's loop ranges over
+	paramAlias    map[string]string // parameter name used by the contract -> name of the parameter at that position in the code
+	guessLoop     ast.Node          // loop whose invariants are being translated: a renamed accumulator is looked for among the locals it assigns
+	loopAlias     map[string]Term   // a local of the contract that named the ranged-over collection, now written in place
 	preArgs       []Term
 	seenStack     []Term
 	seenFinal     Term
